@@ -746,7 +746,9 @@ def _judge_stop(acc, sb, case, st, variant2, n2, f, serial, depth, chain=None):
     acc.outcomes.add('%s|%s|n2=%d|%s' % (st['stop'], variant2, n2, outcome))
     if not acc.res['samples'] or acc.fallback_sample:
         smp = {'family': case['family'], 'container': container,
-               'history': {'run1': ['base', case.get('n1')], 'restart': [variant2, n2], 'save_frequency': f,
+               'history': {'run1': [st['where'].get('planted', 'base') if isinstance(st['where'], dict)
+                                    else 'base', case.get('n1')],
+                           'restart': [variant2, n2], 'save_frequency': f,
                            'depth': depth},
                'stop': st['stop'], 'stopped_at': st['where'],
                'file_bytes_on_disk': None if out_rel not in st['image'] else len(st['image'][out_rel]),
